@@ -458,12 +458,12 @@ func eScenario(r *rand.Rand) ([]database.Command, string, eOpts) {
 		variant := r.Intn(3)
 		small := variant == 1 // ... or at a small limit with a group of equal scores straddling the cut
 		if small {
-			n = 64 + r.Intn(40)
+			n = 64 + r.Intn(16)
 		}
 		if variant == 2 {
-			// ... or 70-100 entries each holding some of three query words, so that entries far down the ranking still
+			// ... or 60-80 entries each holding some of three query words, so that entries far down the ranking still
 			// resemble the query: every candidate of a large answer takes part in the re-ranking, not only the first fifty
-			n = 70 + r.Intn(31)
+			n = 60 + r.Intn(21)
 			ws := []string{ePlain[r.Intn(12)], eActions[r.Intn(len(eActions))], eTargets[r.Intn(len(eTargets))]}
 			var cmds []database.Command
 			for i := 0; i < n; i++ {
